@@ -565,6 +565,16 @@ func scenarios(tier string, yield func(any) bool) {
 		if !yield(&Scn{ActiveMS: 1000, TryDurMS: 0, TryIntMS: 250, Arrivals: []int{200, 700, 1200, 2700, 3200, 4200}, Outage: out}) {
 			return
 		}
+		// the same outages seen by both checkers: proxied dials fail during the outage (their
+		// failures are forgotten fail_duration later) while the active checker marks the peer
+		// down and, after the recovery, up again - before or after those failures expire
+		for _, fd := range []int{700, 2000} {
+			for _, mf := range []int{1, 2} {
+				if !yield(&Scn{ActiveMS: 1000, FailDurMS: fd, MaxFails: mf, TryDurMS: 0, TryIntMS: 250, Arrivals: []int{200, 700, 1200, 2700, 3200, 4200}, Outage: out}) {
+					return
+				}
+			}
+		}
 	}
 }
 
@@ -582,7 +592,7 @@ func main() {
 	runner.Main(&runner.Harness{
 		ID:    "C11",
 		Level: "model_checking",
-		Rule:  "proxy handler with two single-peer upstreams (and a family in which upstream 0 has two dial addresses) and the 'first' policy: settings fail_duration {0,2 s} x max_fails {0,1,2} x try_duration {0,1 s} x try_interval {250,400 ms} x 6 arrival patterns (1-5 connections) with EVERY success/failure vector of the dials (up to 3, thorough 5, failing dials); max_connections / unhealthy_connection_count {1,2} with overlapping 1 s connections; active checks (1 s) with scripted outages; x every interleaving within the delay budget. A reference model (failure timestamps per peer, open connections per upstream, active-check verdicts) replays the same dial outcomes and predicts every dial's target and every connection's fate and give-up time",
+		Rule:  "proxy handler with two single-peer upstreams (and a family in which upstream 0 has two dial addresses) and the 'first' policy: settings fail_duration {0,2 s} x max_fails {0,1,2} x try_duration {0,1 s} x try_interval {250,400 ms} x 6 arrival patterns (1-5 connections) with EVERY success/failure vector of the dials (up to 3, thorough 5, failing dials); max_connections / unhealthy_connection_count {1,2} with overlapping 1 s connections; active checks (1 s) with scripted outages, alone and together with passive failure tracking (fail_duration 0.7/2 s, max_fails 1/2); x every interleaving within the delay budget. A reference model (failure timestamps per peer, open connections per upstream, active-check verdicts) replays the same dial outcomes and predicts every dial's target and every connection's fate and give-up time",
 		Assumptions: []string{
 			"arrival instants are chosen so that no dial coincides with a failure's expiry instant",
 			"timing clauses are only asserted on executions without timer deviations",
